@@ -1,2 +1,25 @@
 //! Read-only probe (child module of `ntp-proto/src/server.rs`), compiled only under
 //! `--cfg pendulum_project_ntpd_rs_verif`. Owned by the world that needs it; must never mutate state.
+//!
+//! Owner: world w1s (NTP server world). The C20 oracle keeps its own slot array; the only thing it
+//! cannot know independently is which slot the server's (seeded) hasher maps an address to.
+
+use std::net::IpAddr;
+
+use super::Server;
+
+impl<C> Server<C> {
+    /// Slot of the rate-limiting cache `addr` maps to (`None` when the cache is disabled).
+    pub fn verif_slot_index(&self, addr: IpAddr) -> Option<usize> {
+        if self.client_cache.elements.is_empty() {
+            None
+        } else {
+            Some(self.client_cache.index(&addr))
+        }
+    }
+
+    /// Number of slots of the rate-limiting cache.
+    pub fn verif_cache_len(&self) -> usize {
+        self.client_cache.elements.len()
+    }
+}
